@@ -89,7 +89,8 @@ META.update({
                           "recorded known findings; for them the 50-digit C-semantics evaluator of the harness classifies disagreements."),
     "C03": dict(technique="Lean 4 proof (return-array assembly + backend-independent validator soundness) + translation validation + differential run (jitted and un-jitted)",
                 text="Theorems jaxReturn_sound / arity_mismatch (the returned array has the documented length and entry i is the value stored in slot i iff the return list is range(n)), "
-                     "num_return_values_extracted (each method passes the length of the array it fills), and the shared validator soundness. Every JAX function the NumPy backend offers is "
+                     "num_return_values_extracted (each method passes the length of the array it fills), and the shared validator soundness. Arity.{rhs,monitor,missing,scheme}_arity / generated_return: for the "
+                     "programs of the model's generators every result name below the documented length is bound, so the returned array has that length and carries the stored values. Every JAX function the NumPy backend offers is "
                      "validated, its return list checked against the documented length, and run with and without jit against the reference meaning; models with more than 10 outputs included.",
                 note=TB + "XLA compilation is assumption A2."),
     "C11": dict(technique="Lean 4 proof (writer alphabet inside the grammar, extracted tables) + differential save/load round trips",
@@ -102,7 +103,7 @@ META.update({
                 text="Theorems missing_exact (missing variables = names mentioned and not defined, sorted), split_glue (a solution of the full model is a solution of every restriction fed "
                      "with its values for states, parameters and missing variables), states_partition, missing_values_sound, pin c_missing_index_name. Real code: every component as the split, "
                      "missing variables compared with the model's, sub / rest modules fed from the full model, monitors / rhs / Euler / missing_values compared by name. "
-                     "SplitEndToEnd.restrict_wf / split_rhs_correct / split_missing_correct: a closed restriction of a well-formed model is well formed, and its generated rhs / missing_values programs, fed with the "
+                     "SplitLoader.closed_of_components / loaded_split_wf: for every text the loader model accepts and every selection of components the selected sub-model is a closed restriction, hence well formed. SplitEndToEnd.restrict_wf / split_rhs_correct / split_missing_correct: a closed restriction of a well-formed model is well formed, and its generated rhs / missing_values programs, fed with the "
                      "values a solution of the full model gives to the part's inputs, return the full model's values. GenValidMissing.genMissing_valid / genMissing_correct: the model's missing_values generator (with the early exit 'if n >= N: break') writes every requested value into its slot "
                      "exactly once, for every well-formed model and every list of distinct requested names it defines; every real missing_values program is translated, validated by "
                      "checkMissingValues and compared statement by statement with the model generator's program for the same split.",
